@@ -16,8 +16,8 @@ package props
 //     of the footer, a patched length or a patched magic.
 //
 //   L2 thrift.skip      real skipStruct = mirror: end offset, or error class
-//   L1 prefix           on the real code alone: an accepted struct ending at e is rejected at every cut m < e and
-//                       answered (e, nil) at every cut m >= e
+//   L1 prefix           on the real code alone: an accepted struct ending at e is rejected at every cut m < e, with
+//                       io.EOF or io.ErrUnexpectedEOF, and answered (e, nil) at every cut m >= e
 //   L2 typed-vs-walk    the typed decoder (Decode into format.FileMetaData, isolated process) accepts only what
 //                       the walk accepts, with the same byte count; what the walk rejects it rejects with the
 //                       same class, or earlier with a missing required field of a nested struct
@@ -604,6 +604,9 @@ func RunC14Footer(ctx *core.Ctx) {
 			if len(f.b) <= ctx.Scale(700, 3000) {
 				for m := 0; m <= len(f.b); m++ {
 					got := c14RealSkip(f.b[:m])
+					if m < e && !strings.HasPrefix(got, "ok") && got != "err eof" && got != "err ueof" {
+						ctx.Fail("L1", "cut-struct-not-eof-class "+strings.ReplaceAll(got, " ", "-"), "skipStruct rejects a proper prefix of a struct it accepts with an error that is neither io.EOF nor io.ErrUnexpectedEOF", map[string]any{"struct": core.Hex(f.b), "end": e, "cut": m, "answer": got})
+					}
 					if m < e && strings.HasPrefix(got, "ok") {
 						ctx.Fail("L1", "prefix-of-struct-accepted", "skipStruct accepts a proper prefix of a struct it accepts", map[string]any{"struct": core.Hex(f.b), "end": e, "cut": m, "answer": got})
 					}
